@@ -19,6 +19,7 @@ void c12_inst(RootMeshNode<Mesh_>& node, Mesh_& mesh, MeshPart<Mesh_>& part, con
 {
   node.extract_patch(ranks, g, 0);
   node.extract_patch(std::vector<Index>(), true, true, true);
+  node.create_patch_meshpart(g, 1);
   node.refine_unique();
   node.rename_halos(std::map<int,int>());
   PatchHaloFactory<Mesh_> hf(g, mesh, part);
